@@ -202,7 +202,7 @@ fn session(seed: u64, nreq: usize, out: &mut Out) {
                     tsig_sign(&mut m, &p, Alg::Sha256, &secret(kg), None);
                 }
                 let transport = if r.gen_bool(0.5) { Transport::Tcp } else { Transport::Udp };
-                let mut buf = vec![0u8; 65535];
+                let mut buf = vec![0xFFu8; 65535];
                 push(json!({"ev": "HBegin"}));
                 let t0 = unix_now();
                 let resp = match server.handle_message(&m, ReceivedInfo::new(Ipv4Addr::LOCALHOST.into(), transport), &mut buf) {
@@ -223,7 +223,7 @@ fn session(seed: u64, nreq: usize, out: &mut Out) {
     {
         let q = Query { id: 7, flags: 0, qname: w("example.test."), qtype: 15, qclass: 1 };
         let m = q.encode();
-        let mut buf = vec![0u8; 65535];
+        let mut buf = vec![0xFFu8; 65535];
         push(json!({"ev": "HBegin"}));
         let t0 = unix_now();
         let resp = match server.handle_message(&m, ReceivedInfo::new(Ipv4Addr::LOCALHOST.into(), Transport::Tcp), &mut buf) {
